@@ -13,7 +13,9 @@ use cosmwasm_std::{
     StakingQuery, Storage,
 };
 use cw_multi_test::error::AnyResult;
+use cosmwasm_std::{Record, WasmMsg, WasmQuery};
 use cw_multi_test::custom_handler::CachingCustomHandler;
+use cw_multi_test::{Contract, ContractData, Wasm, WasmKeeper, WasmSudo};
 use cw_multi_test::{
     AcceptingModule, AppResponse, Bank, BankKeeper, BankSudo, CosmosRouter, Distribution, DistributionKeeper, FailingModule, Gov,
     GovAcceptingModule, GovFailingModule, Ibc, IbcAcceptingModule, IbcFailingModule, Module, StakeKeeper, Staking, StakingSudo,
@@ -643,5 +645,92 @@ impl Stargate for RecStargate {
                 m.query_grpc(api, storage, querier, block, request)
             }
         }
+    }
+}
+
+/// Recorder in front of the repo's real WasmKeeper: every wasm message, query and sudo — from a user
+/// or emitted by a contract — must pass here exactly once, with sender and payload intact.
+pub struct RecWasm {
+    pub inner: WasmKeeper<SimMsg, SimQuery>,
+    pub world: World,
+}
+
+pub fn wasm_msg_payload(msg: &WasmMsg) -> String {
+    match msg {
+        WasmMsg::Execute { contract_addr, .. } => format!("execute:{}", contract_addr),
+        WasmMsg::Instantiate { code_id, label, .. } => format!("instantiate:{}:{}", code_id, label),
+        WasmMsg::Instantiate2 { code_id, label, salt, .. } => format!("instantiate2:{}:{}:{}", code_id, label, crate::storage::hex(salt.as_slice())),
+        WasmMsg::Migrate { contract_addr, new_code_id, .. } => format!("migrate:{}:{}", contract_addr, new_code_id),
+        WasmMsg::UpdateAdmin { contract_addr, admin } => format!("update_admin:{}:{}", contract_addr, admin),
+        WasmMsg::ClearAdmin { contract_addr } => format!("clear_admin:{}", contract_addr),
+        other => format!("{:?}", other),
+    }
+}
+
+pub fn wasm_query_payload(q: &WasmQuery) -> String {
+    match q {
+        WasmQuery::Smart { contract_addr, .. } => format!("smart:{}", contract_addr),
+        WasmQuery::Raw { contract_addr, key } => format!("raw:{}:{}", contract_addr, crate::storage::hex(key.as_slice())),
+        WasmQuery::ContractInfo { contract_addr } => format!("contract_info:{}", contract_addr),
+        WasmQuery::CodeInfo { code_id } => format!("code_info:{}", code_id),
+        other => format!("{:?}", other),
+    }
+}
+
+impl Wasm<SimMsg, SimQuery> for RecWasm {
+    fn execute(
+        &self,
+        api: &dyn Api,
+        storage: &mut dyn Storage,
+        router: &dyn CosmosRouter<ExecC = SimMsg, QueryC = SimQuery>,
+        block: &BlockInfo,
+        sender: Addr,
+        msg: WasmMsg,
+    ) -> AnyResult<AppResponse> {
+        if self.world.module_call("wasm", sender.as_str(), wasm_msg_payload(&msg)) {
+            bail!("injected wasm module failure");
+        }
+        self.inner.execute(api, storage, router, block, sender, msg)
+    }
+
+    fn query(&self, api: &dyn Api, storage: &dyn Storage, querier: &dyn Querier, block: &BlockInfo, request: WasmQuery) -> AnyResult<Binary> {
+        if self.world.module_call("wasm.query", "", wasm_query_payload(&request)) {
+            bail!("injected wasm query failure");
+        }
+        self.inner.query(api, storage, querier, block, request)
+    }
+
+    fn sudo(
+        &self,
+        api: &dyn Api,
+        storage: &mut dyn Storage,
+        router: &dyn CosmosRouter<ExecC = SimMsg, QueryC = SimQuery>,
+        block: &BlockInfo,
+        msg: WasmSudo,
+    ) -> AnyResult<AppResponse> {
+        if self.world.module_call("wasm.sudo", "", msg.contract_addr.to_string()) {
+            bail!("injected wasm sudo failure");
+        }
+        self.inner.sudo(api, storage, router, block, msg)
+    }
+
+    fn store_code(&mut self, creator: Addr, code: Box<dyn Contract<SimMsg, SimQuery>>) -> u64 {
+        self.inner.store_code(creator, code)
+    }
+
+    fn store_code_with_id(&mut self, creator: Addr, code_id: u64, code: Box<dyn Contract<SimMsg, SimQuery>>) -> AnyResult<u64> {
+        self.inner.store_code_with_id(creator, code_id, code)
+    }
+
+    fn duplicate_code(&mut self, code_id: u64) -> AnyResult<u64> {
+        self.inner.duplicate_code(code_id)
+    }
+
+    fn contract_data(&self, storage: &dyn Storage, address: &Addr) -> AnyResult<ContractData> {
+        self.inner.contract_data(storage, address)
+    }
+
+    fn dump_wasm_raw(&self, storage: &dyn Storage, address: &Addr) -> Vec<Record> {
+        self.inner.dump_wasm_raw(storage, address)
     }
 }
